@@ -6,6 +6,9 @@ Decided by Tracker.tla:
   leg B  `tracker explore` extracts the state graph of the REAL ChainTracker<ChainMonitor> (every request of
          the TLC-generated alphabet on every reachable state, probe requests after every refusal); TLC
          (ImplTracker) checks every edge/probe against Step and runs the monitors C13a/C13b/C13c;
+         the configurations vary the tracker's mode: trusted oracle set, tip with/without filter header,
+         allow_deep_reorgs off/on x remembered-header window empty / one header / full (removals that go
+         below the remembered headers; C13a also says what an accepted request leaves as tip/height/window);
   leg C  TLC-simulated behaviours of the model are replayed on long-lived real trackers; TLC (TraceTracker)
          validates every step and runs the monitors along the traces."""
 import json
